@@ -57,6 +57,8 @@ inductive Op (α : Type) where
   /-- existing quantities wrapped again with new uncertainties:
       `MeasurementArray(array_of_values, error=…)` / `XYDataSet(xdata=array, xerr=…)` -/
   | rewrap (ids : List Nat) (spec : ErrSpec α)
+  /-- `XYDataSet(xdata=array, ydata=array, xerr=…, yerr=…)` over two existing arrays -/
+  | rewrapXY (idsX idsY : List Nat) (xerr yerr : ErrSpec α)
   | setError (i : Nat) (e : α)
   | setRelError (i : Nat) (r : α)
   | setValue (i : Nat) (v : α)
@@ -152,6 +154,23 @@ def rewrap (h : Heap α) (ids : List Nat) (spec : ErrSpec α) : Heap α × Out :
       | none => (h, .reject)
       | some es => (assignErrors h ids es, .ok)
 
+def valsOf (h : Heap α) (ids : List Nat) : List α :=
+  ids.map fun i => match h[i]? with | some q => q.value | none => zero
+
+/-- both uncertainty specifications and the lengths are validated before anything is assigned -/
+def rewrapXY (h : Heap α) (idsX idsY : List Nat) (xerr yerr : ErrSpec α) : Heap α × Out :=
+  if !allMeasured h idsX || !allMeasured h idsY then (h, .reject)
+  else if !plainSpec xerr || !plainSpec yerr then (h, .reject)
+  else
+    match errArray (valsOf h idsX) xerr, errArray (valsOf h idsY) yerr with
+    | some ex, some ey =>
+      if idsX.length != idsY.length then (h, .reject)
+      else
+        let h1 := match xerr with | .none => h | _ => assignErrors h idsX ex
+        let h2 := match yerr with | .none => h1 | _ => assignErrors h1 idsY ey
+        (h2, .ok)
+    | _, _ => (h, .reject)
+
 /-- `x.error = e` (MeasuredValue and DerivedValue setters; a derived value becomes a measurement) -/
 def setError (h : Heap α) (i : Nat) (e : α) : Heap α × Out :=
   match h[i]? with
@@ -231,6 +250,7 @@ def step (h : Heap α) : Op α → Heap α × Out
   | .mkArray xs spec => mkArray h xs spec
   | .mkXY xs ys xe ye => mkXY h xs ys xe ye
   | .rewrap ids spec => rewrap h ids spec
+  | .rewrapXY ix iy xe ye => rewrapXY h ix iy xe ye
   | .setError i e => setError h i e
   | .setRelError i r => setRelError h i r
   | .setValue i v => setValue h i v
